@@ -119,6 +119,18 @@ def _worker_chunk(args) -> list:
         return value
     if status == "exc":
         return [{"index": args[3][0], "harness_error": value}]
+    prop = load_prop(args[0])
+    if getattr(prop, "CRASH_IS_UNDECIDED", False):
+        # the code under test can corrupt memory: rerun the chunk one run per child and attribute the crash
+        out = []
+        for index in args[3]:
+            st, val = in_child(_chunk_body, (args[0], args[1], args[2], [index]))
+            if st == "ok":
+                out.extend(val)
+            else:
+                out.append({"index": index, "rs": core.run_seed(args[1], args[0], index), "digest": "crashed", "violations": [],
+                            "stats": {"undecided:crashed": 1}, "sigs": [], "nsteps": 0, "chunk_start": index})
+        return out
     return [{"index": args[3][0], "harness_error": f"chunk child died (wait status {value})"}]
 
 
